@@ -32,7 +32,8 @@ import shutil
 import tempfile
 import weakref
 
-STREAMS = ['endpoints-parse', 'lifecycle-close-everywhere', 'lifecycle-random', 'lifecycle-reactions']
+STREAMS = ['endpoints-parse', 'lifecycle-close-everywhere', 'lifecycle-random', 'lifecycle-reactions',
+           'lifecycle-extended']
 THEOREMS = ['connect_fires_once', 'first_reachable_in_order', 'lost_fails_everything_once', 'endpoint_prefix_table',
             'address_list_in_listed_order']
 TRUSTED_BASE = [
@@ -61,7 +62,7 @@ RULE = ('endpoints-parse: rendered well-formed address lists plus mutations (dro
         'with a chosen unreachable prefix (each failing with one of 14 exception classes: refused, other ConnectErrors, DNSLookupError, timeouts, OSError, Exception, CancelledError, ...), a scripted handshake (REJECTED/ERROR/DATA steps, unix-fd negotiation, cut '
         'lines), Hello reply or error (whole or cut), 0..14 user operations and replies/expiries on the ready '
         'connection, optionally the close; close-everywhere = every prefix of a base history followed by the close; '
-        'reactions = every assignment of the five reactions to a fixed skeleton of callbacks and calls.  distinct = '
+        'reactions = every assignment of the six reactions to a fixed skeleton of callbacks and calls.  distinct = '
         'distinct canonical JSON of (address, steps); non-trivial = the transport connected (lifecycle) / at least one '
         'entry (parse)')
 
@@ -214,6 +215,14 @@ class Mods:
         self.ObservedClock = ObservedClock
 
 
+# Reactions beyond the model's alphabet, exercised by the implementation-only stream `lifecycle-extended`:
+#   d  let go of another live proxy (the user's last reference) while connectionLost runs
+#   t  issue a call WITH a timeout
+#   k  cancel another registered callback of the same list (one that has not run yet, if any)
+#   q  conn.disconnect() (transport.loseConnection() on a transport that is already gone)
+EXTENDED = ('d', 't', 'k', 'q')
+
+
 class VerifCallbackError(Exception):
     """What a callback with reaction 'x' raises."""
 
@@ -236,6 +245,8 @@ class ConnCb:
             run.late_proxy(conn)
         elif self.r == 'x':
             raise VerifCallbackError('connection-level disconnect callback #%d raises' % self.cid)
+        elif self.r in EXTENDED:
+            run.ext_react(self.r, conn, self, None)
 
 
 class ProxyCb:
@@ -256,6 +267,8 @@ class ProxyCb:
             run.late_proxy(proxy.objHandler.conn)
         elif self.r == 'x':
             raise VerifCallbackError('disconnect callback #%d of proxy #%d raises' % (self.cid, self.pid))
+        elif self.r in EXTENDED:
+            run.ext_react(self.r, proxy.objHandler.conn, self, self.pid)
 
 
 class Run:
@@ -294,6 +307,8 @@ class Run:
         self.stalled = None
         self.att = []
         self.af_count = 0
+        self.dropped_in_loss = set()
+        self.cancelled_in_loss = set()
 
     # -- helpers ---------------------------------------------------------------------------------------------
     def new_cb(self, late=False):
@@ -426,6 +441,8 @@ class Run:
                     self.late_proxy(self.proto)
                 elif r == 'x':
                     raise VerifCallbackError('errback of call #%d raises' % i)
+                elif r in EXTENDED:
+                    self.ext_react(r, self.proto, None, None)
         d.addCallbacks(ok, err)
         d.addErrback(lambda f: f.trap(VerifCallbackError) and None)
 
@@ -453,6 +470,30 @@ class Run:
         cb = ProxyCb(self, p, self.new_cb(late=True), 'n')
         rec['cbs'].append(cb)
         rec['obj'].notifyOnDisconnect(cb)
+
+    def ext_react(self, kind, conn, cb, pid):
+        if kind == 't':
+            self.issue_call(conn, 40.0 + len(self.calls), 'n', during_loss=True)
+        elif kind == 'q':
+            conn.disconnect()
+        elif kind == 'd':
+            alive = [p for p, rec in self.proxies.items() if rec['alive'] and rec['obj'] is not None and p != pid]
+            if alive:
+                later = [p for p in alive if pid is not None and p > pid]
+                p = min(later) if later else max(alive)      # preferably the next proxy the walk would visit
+                self.dropped_in_loss.add(p)
+                self.op_drop({'p': p})
+        elif kind == 'k':
+            if pid is None:
+                lst, owner = getattr(conn, '_dcCallbacks', []), conn
+            else:
+                owner = self.proxies[pid]['obj']
+                lst = owner._disconnectCBs or []
+            others = [c for c in lst if c is not cb and hasattr(c, 'cid')]
+            if others:
+                target = others[-1]
+                self.cancelled_in_loss.add(target.cid)
+                owner.cancelNotifyOnDisconnect(target)
 
     def snapshot_at_loss(self):
         self.at_loss = {
@@ -537,18 +578,18 @@ class Run:
             self.phase = 'helloSent'
             self.map_new_serials('hello', False, 'n', False)
 
-    def hello_bytes(self, ok, named=True):
+    def hello_bytes(self, ok, named=True, name=':1.42'):
         M = self.M
         serial = self.idx_serial[0]
         if ok and not named:
             return M.message.MethodReturnMessage(serial).rawMessage          # no body: no bus name
         if ok:
-            return M.message.MethodReturnMessage(serial, body=[':1.42'], signature='s').rawMessage
+            return M.message.MethodReturnMessage(serial, body=[name], signature='s').rawMessage
         return M.message.ErrorMessage('org.freedesktop.DBus.Error.LimitsExceeded', serial,
                                       body=['too many connections'], signature='s').rawMessage
 
     def op_hello(self, st):
-        data = self.hello_bytes(st['ok'], st.get('named', True))
+        data = self.hello_bytes(st['ok'], st.get('named', True), st.get('name', ':1.42'))
         part = st.get('part')
         if part == 'head':
             self.deliver(data[:cut_at(data, st['cut'])])
@@ -960,6 +1001,9 @@ def judge(run, sc):
                 crash_key = 'connectionlost-dict-changed-size'
             else:
                 crash_key = 'connectionlost-raised-' + type(run.loss_exc).__name__
+        if crashed and not isinstance(run.loss_exc, VerifCallbackError):
+            out.append((crash_key, 'connectionLost raised %r (no user callback raised)' % (run.loss_exc,),
+                        repr(run.loss_exc), 'no exception'))
         for i in al['outstanding']:
             done = run.calls[i]['done']
             want = ['introspectionFailed', 'lost'] if run.calls[i]['kind'] == 'introspect' else ['lost']
@@ -971,13 +1015,17 @@ def judge(run, sc):
             if len(run.calls[i]['done']) != 1:
                 out.append(('completed-call-fired-again-on-loss', 'call #%d had completed before the loss; fired %r'
                             % (i, run.calls[i]['done']), run.calls[i]['done'], 'one completion'))
-        if run.timers_left:
+        late_calls = {i for i, c in run.calls.items() if c['late']}
+        timers_left = [i for i in (run.timers_left or []) if i not in late_calls]   # a timed call issued on the lost
+        if timers_left:                                                           # connection may time out later
             out.append((crash_key or 'timer-left-after-loss', 'delayed calls remain after the connection was lost: calls %r'
-                        % (run.timers_left,), run.timers_left, []))
+                        % (timers_left,), timers_left, []))
         before = al['runs_before']
         cbs = al['conn_cbs']
         for pos, c in enumerate(cbs):
             n = run.cb_runs.get(c, 0) - before.get(c, 0)
+            if c in run.cancelled_in_loss and n <= 1:
+                continue        # cancelled by another callback while connectionLost ran: running it or not is fine
             if n != 1:
                 if crash_key:
                     key = crash_key
@@ -992,6 +1040,8 @@ def judge(run, sc):
                 n = run.cb_runs.get(c, 0) - before.get(c, 0)
                 if n == 1:
                     continue
+                if (c in run.cancelled_in_loss or p in run.dropped_in_loss) and n <= 1:
+                    continue    # cancelled / its proxy let go of while connectionLost ran: no longer owed
                 if crash_key:
                     key = crash_key
                 elif n == 0 and pos > 0 and rec['r'][rec['cbs'][pos - 1]] == 'u' and \
@@ -1016,7 +1066,9 @@ def judge(run, sc):
                 out.append(('late-call-fired-twice', 'call #%d issued during connectionLost fired %r' % (i, c['done']),
                             c['done'], '<= 1'))
     # nothing fires afterwards
-    if run.closed and run.after_probe:
+    late_timeouts = {'er:%d:timeout' % i for i, c in run.calls.items() if c['late'] and c['timed']}
+    after_probe = [f for f in (run.after_probe or []) if f not in late_timeouts]
+    if run.closed and after_probe:
         key = 'fires-after-loss'
         if isinstance(run.loss_exc, VerifCallbackError):
             key = 'loss-aborted-by-raising-disconnect-callback'
@@ -1024,7 +1076,7 @@ def judge(run, sc):
             key = ('connectionlost-dict-changed-size' if 'changed size during iteration' in str(run.loss_exc)
                    else 'connectionlost-raised-' + type(run.loss_exc).__name__)
         out.append((key, 'effects after the transport was closed and all time passed: %r'
-                    % (run.after_probe,), run.after_probe, []))
+                    % (after_probe,), after_probe, []))
     return out
 
 
@@ -1123,8 +1175,9 @@ def gen_handshake(rng, unix, outcome):
 class ReadyGen:
     """Generates applicable user operations / replies / expiries on a ready connection."""
 
-    def __init__(self, rng, weights=None):
+    def __init__(self, rng, extended=False):
         self.rng = rng
+        self.extended = extended
         self.next_serial = 1          # 0 is Hello
         self.next_cb = 0
         self.next_proxy = 0
@@ -1135,9 +1188,38 @@ class ReadyGen:
         self.deadlines = set()
 
     def reaction(self):
+        if self.extended:
+            return self.rng.choice(['n', 'c', 'u', 'r', 'p', 'x', 'd', 'd', 't', 't', 'k', 'k', 'q'])
         return self.rng.choice(['n', 'n', 'c', 'u', 'r', 'p', 'x'])
 
-    def step(self):
+    def burst(self):
+        """Several calls, proxies (both ways) and callbacks at once: losses with >= 3 calls and >= 3 proxies."""
+        rng = self.rng
+        out = []
+        for _ in range(rng.randrange(3, 6)):
+            out += self.step(rng.choice(['call', 'call_timed']))
+        for _ in range(rng.randrange(2, 4)):
+            out += self.step('notify')
+        for _ in range(rng.randrange(3, 5)):
+            if rng.random() < 0.5:
+                out += self.step('proxy_explicit')
+            else:
+                out += self.step('proxy_introspect')
+                i = max(self.pending)
+                self.pending.pop(i)
+                p = self.next_proxy
+                self.next_proxy += 1
+                self.proxies[p] = {'alive': True, 'cbs': []}
+                out.append({'op': 'reply', 'i': i, 'ok': True})
+        for p in list(self.proxies):
+            if self.proxies[p]['alive']:
+                for _ in range(rng.randrange(1, 3)):
+                    self.proxies[p]['cbs'].append(self.next_cb)
+                    self.next_cb += 1
+                    out.append({'op': 'proxy_notify', 'p': p, 'r': self.reaction()})
+        return out
+
+    def step(self, force=None):
         rng = self.rng
         ops = ['call', 'call', 'call_timed', 'notify', 'notify', 'proxy_explicit', 'proxy_introspect']
         if self.conn_cbs:
@@ -1152,7 +1234,7 @@ class ReadyGen:
         timed = [i for i, c in self.pending.items() if c['deadline'] is not None]
         if timed:
             ops.append('expire')
-        op = rng.choice(ops)
+        op = force or rng.choice(ops)
         if op in ('call', 'call_timed'):
             timeout = None
             if op == 'call_timed':
@@ -1164,7 +1246,7 @@ class ReadyGen:
             i = self.next_serial
             self.next_serial += 1
             self.pending[i] = {'kind': 'user', 'deadline': None if timeout is None else self.now + timeout}
-            return [{'op': 'call', 'timeout': timeout, 'r': rng.choice(['n', 'n', 'c', 'r', 'u', 'p', 'x'])}]
+            return [{'op': 'call', 'timeout': timeout, 'r': self.reaction()}]
         if op == 'notify':
             self.conn_cbs.append(self.next_cb)
             self.next_cb += 1
@@ -1218,7 +1300,7 @@ class ReadyGen:
         return [{'op': 'expire', 'i': i}]
 
 
-def gen_history(rng, tmp, want=None):
+def gen_history(rng, tmp, want=None, extended=False):
     """A base history: (entries, address, steps)."""
     entries, addr = gen_address(rng, tmp)
     n = len(entries)
@@ -1243,15 +1325,18 @@ def gen_history(rng, tmp, want=None):
     steps += gen_handshake(rng, unix, 'ok')
     ok = want != 'hello-error'
     named = want != 'hello-noname'
+    name = rng.choice([':1.42', ':1.42', ':1.7', '', 'org.example.NotUnique'])   # any string is a name for the gate
     if rng.random() < 0.4:
         cut = rng.randrange(1, 1000)
-        steps += [{'op': 'hello', 'ok': ok, 'named': named, 'part': 'head', 'cut': cut},
-                  {'op': 'hello', 'ok': ok, 'named': named, 'part': 'tail', 'cut': cut}]
+        steps += [{'op': 'hello', 'ok': ok, 'named': named, 'name': name, 'part': 'head', 'cut': cut},
+                  {'op': 'hello', 'ok': ok, 'named': named, 'name': name, 'part': 'tail', 'cut': cut}]
     else:
-        steps.append({'op': 'hello', 'ok': ok, 'named': named})
+        steps.append({'op': 'hello', 'ok': ok, 'named': named, 'name': name})
     if not ok or not named:
         return entries, addr, steps
-    g = ReadyGen(rng)
+    g = ReadyGen(rng, extended)
+    if extended or rng.random() < 0.5:
+        steps += g.burst()
     for _ in range(rng.choice([0, 1, 2, 4, 6, 8, 10, 14])):
         steps += g.step()
     return entries, addr, steps
@@ -1274,7 +1359,7 @@ def close_step(rng):
 
 def gen_reaction_skeletons(quick):
     """Every assignment of reactions to a fixed skeleton on a ready connection."""
-    conn_n, call_n, pcb_n = (2, 2, 1) if quick else (3, 2, 2)
+    conn_n, call_n, pcb_n = (2, 1, 1) if quick else (2, 2, 2)
     out = []
     for explicit in (True, False):
         for rs in itertools.product(REACTIONS, repeat=conn_n):
@@ -1298,7 +1383,7 @@ def gen_reaction_skeletons(quick):
                     out.append({'entries': entries, 'address': render_entry(entries[0]), 'steps': steps})
     # two live proxies of the SAME remote object (same bus name, path, interfaces), obtained both ways
     for how in (('i', 'i'), ('e', 'e'), ('e', 'i'), ('i', 'e')):
-        for r0 in REACTIONS:
+        for r0 in (['n', 'u', 'x'] if quick else REACTIONS):
             for c0 in ['n', 'c', 'r', 'p', 'x']:
                 for ps in itertools.product(REACTIONS, repeat=2):
                     steps = [{'op': 'ac'}, {'op': 'auth', 'hex': (b'OK ' + GUID + b'\r\n').hex(), 'tok': ['ao']},
@@ -1414,9 +1499,8 @@ def parse_expected(case):
 
 # ----------------------------------------------------------------------------------------------------------------
 
-def check_scenarios(ctx, M, stream, scenarios):
-    lines = [model_line(sc) for sc in scenarios]
-    out = ctx.model(lines)
+def check_scenarios(ctx, M, stream, scenarios, use_model=True):
+    out = ctx.model([model_line(sc) for sc in scenarios]) if use_model else None
     for k, sc in enumerate(scenarios):
         run = execute(M, sc)
         ctx.impl_trace()
@@ -1497,11 +1581,20 @@ def _run(ctx, M, tmp):
     check_scenarios(ctx, M, 'lifecycle-random', bases)
     check_scenarios(ctx, M, 'lifecycle-close-everywhere', everywhere)
 
+    # ---- implementation-only: reactions outside the model's alphabet (drop a proxy, timed call, cancel another
+    # callback, disconnect()); judged by the oracle with the allowances documented in `judge`
+    ext = []
+    for _ in range(ctx.scale(quick=500, thorough=6000)):
+        entries, addr, steps = gen_history(rng, tmp, want='ready', extended=True)
+        if transport_open_after(steps):
+            ext.append({'entries': entries, 'address': addr, 'steps': steps + [close_step(rng)], 'extended': True})
+    check_scenarios(ctx, M, 'lifecycle-extended', ext, use_model=False)
+
     # ---- reactions: every assignment on a fixed skeleton
     skel = gen_reaction_skeletons(quick)
     check_scenarios(ctx, M, 'lifecycle-reactions', skel)
     if not quick:
-        ctx.note('lifecycle-reactions enumerates every reaction assignment of its skeleton (3 callbacks, 2 calls, 2 proxy callbacks)')
+        ctx.note('lifecycle-reactions enumerates every reaction assignment of its skeleton (2 callbacks, 2 calls, 2 proxy callbacks; six reactions)')
 
 
 def replay(ctx, data):
